@@ -14,10 +14,10 @@ CLAIMS = {
    text='Coq theorems over an executable model of queue.c/stack.c/list.c that keeps the redundant tail/len fields the C keeps: '
         'representation invariant for every op list, refinement to a plain FIFO/LIFO/list specification (for every user comparator), '
         'FIFO/LIFO order for every n, complete-iteration theorem (every element visited once, in order, under arbitrary '
-        'keep/remove/replace actions incl. removal of the last element; destructor log exact). Tie: full-trace differential runs of the '
+        'keep/remove/replace actions incl. removal of the last element; destructor log exact; for the list also INSERTION through the iterator: every original element once, inserted ones not visited). Tie: full-trace differential runs of the '
         'extracted model against the real code under ASan (random + all short op sequences).',
    note=NOTE_COMMON + 'Below the model: pointer-level memory safety of the library code itself (judged by ASan on executed scripts only). '
-        'List: complete-iteration theorem with iterator insertion not yet proved (covered by the differential runs).',
+        'Iterator actions are one per element (get, then at most one of remove / set / insert, then next).',
    technique='Coq proof (invariant + refinement by induction over op lists) tied by extracted-model differential testing',
    design='7/C12'),
  'C11': dict(
